@@ -163,10 +163,14 @@ def run(F, chk):
         else:
             rb.violation(key, b.where(bi), "timed_out operand has no data dependency on the caller's state")
     # callers of handle_finishing_task: the flag they pass must come from a comparison with the task deadline
-    hft = "sozu::command::server::CommandHub::handle_finishing_task"
+    # the task finisher is identified by what it does (it is the function that calls GatheringTask::on_finish), not by name
+    finishers = sorted({(b.root if "{closure" in b.path else b.path) for b, _, _ in sites})
+    if not rb.require(len(finishers) == 1, "expected exactly one function calling GatheringTask::on_finish, found %s" % finishers):
+        return
+    hft = finishers[0]
     for b, bi, t in F.call_sites(hft):
         rb.fn(b.path)
-        key = "%s|handle_finishing_task.timed_out" % b.path
+        key = "%s|task finisher.timed_out" % b.path
         a = t["args"][-1]
         cv = op_const(a)
         if cv is not None:
@@ -307,7 +311,7 @@ def run(F, chk):
     onf = [bi for bi, t in hb.calls() if t.get("fn") == ONFINISH]
     purge = [bi for bi, t in hb.calls() if callee_of(t).endswith("::retain") and touches_field(hb, t, "in_flight")]
     key = "%s|on_finish=>in_flight.retain" % hb.path
-    if rd.require(onf and purge, "handle_finishing_task: on_finish or in_flight.retain not found"):
+    if rd.require(onf and purge, "%s: on_finish or in_flight.retain not found" % hft):
         cut = hb.reach_from(onf, removed=purge)
         if [r for r in hb.returns() if r in cut]:
             rd.violation(key, hb.where(onf[0]), "a path finishes a task without purging its in-flight entries")
